@@ -7,14 +7,17 @@ from gen.stategen import *
 from gen import stepgen, proggen, boundgen, randgen
 
 PROPERTY = "C01"
-PROPS_VO = "Props/C01"
+PROPS_VO = ["Props/C01", "Props/FloatFacts"]
 AXIOMS_OK = []
+AXIOMS_OK_BY_FILE = {"Props/FloatFacts": vcheck.FLOCQ_AXIOMS}
+THEOREM_FILTER = {"Props/FloatFacts": r"FF_(C01_|fo_typed|fo_nbits|nbits_sane)"}
 
 ALLOC_BOUND, NBR_BOUND, SIZE_BOUND, STEP_BOUND, DEPTH_BOUND, RAND_POINTS_BOUND = 100000, 1000, 200000, 10000, 5000, 1000      # = Suites/SNoPanic.v
 QUICK_BOUNDS = "allocation sizes <= 3000, vector lengths <= 9000, size measure <= 60000"                                       # = quick_bounds there
 PARTIAL = ("native stack exhaustion by recursion over very deeply nested items (Item::size, Display, Drop, rec_push), allocation failure and "
            "process aborts cannot be exhibited by the Gallina model; they are covered only by stream (d) inside the envelope")
 ASSUMPTIONS = [
+    "the float hypotheses of the C01 theorems (fo_typed, fo_nbits) are THEOREMS for the Flocq binary32 instance the correspondence run executes, for every libm table (Props/FloatFacts.v: FF_fo_typed, FF_fo_nbits, FF_C01_*_flocq: the no-panic theorems restated at flocq_ops with the hypotheses gone; these depend on the 4 classical axioms of Coq's real numbers, through Flocq)",
     "resource envelope of the correspondence run (decided on the model by suite nopanic.env, Suites/SNoPanic.v, before a case reaches the implementation): "
     "the INTEGER operand of an instruction that allocates by operand (BOOLVECTOR/INTVECTOR/FLOATVECTOR .ONES .ZEROS .RAND, FLOATVECTOR.SINE) is <= %d; "
     "the four INTEGER operands of LIST.NEIGHBOR* are <= %d; the point limit of CODE.RAND, min(|operand|, |max_points_in_random_expressions|), is <= %d; "
